@@ -188,7 +188,9 @@ def mutations(data: bytes, rng, n):
                 if kind == "overflow":
                     rep = rng.choice([b"99999999999999999999", b"1e999", b"-1", b"nan", b"1.0D+400", b"********"])
                 else:
-                    rep = rng.choice([b"1000000", b"0", b"1000000000000000", b"4000000000", str(int(float(m.group().replace(b"D", b"E").replace(b"d", b"e")) if b"." not in m.group() else 7) + 1).encode()])
+                    val = m.group()
+                    smaller = [str(int(val) - d).encode() for d in (1, 2) if val.isdigit() and int(val) - d > 0]     # a count that is too small
+                    rep = rng.choice([b"1000000", b"0", b"1000000000000000", b"4000000000"] + smaller + smaller + [str(int(float(m.group().replace(b"D", b"E").replace(b"d", b"e")) if b"." not in m.group() else 7) + 1).encode()])
                 ls[i] = ls[i][:m.start()] + rep + ls[i][m.end():]
         elif kind == "blank":
             ls[i] = b"\n"
@@ -248,6 +250,17 @@ def file_tasks(args):
     for i in range(head):
         variants.append((b"".join(lines[:i] + lines[i + 1:]), "mutation:delete"))
         variants.append((b"".join(lines[:i + 1] + lines[i:]), "mutation:duplicate"))
+    # every count in the head of the file (a line that is one integer, an `N=` field of an FCHK array header) off by one, both ways:
+    # the arrays of the object are then sized from counters that disagree
+    for i in range(head):
+        mcount = re.search(rb"N=\s*(\d+)\s*$", lines[i]) or re.fullmatch(rb"\s*(\d+)\s*", lines[i])
+        if mcount:
+            val = int(mcount.group(1))
+            for new_val in (val - 1, val + 1):
+                if new_val > 0:
+                    txt = str(new_val).encode().rjust(len(mcount.group(1)))
+                    new_line = lines[i][:mcount.start(1)] + txt + lines[i][mcount.end(1):]
+                    variants.append((b"".join(lines[:i]) + new_line + b"".join(lines[i + 1:]), "mutation:count"))
     variants += mutations(data, rng, nmut)
     # an empty line where a record or a frame is expected: after the last line, before the first, doubled
     variants.append((data + b"\n", "mutation:blank"))
@@ -266,7 +279,7 @@ def file_tasks(args):
         if explicit and not pat_selects:
             bn = base
         tasks.append((content, bn, fmtarg, False, sel, note, base, fmt))
-        if has_many and (idx % 3 == 0 or note == "intact"):
+        if has_many and (idx % 3 == 0 or note in ("intact", "mutation:count")):
             tasks.append((content, bn, fmtarg, True, sel, note, base, fmt))
     # selection failures: nothing may be opened
     tasks.append((data, "file.unknownext", None, False, "nomatch", "selection:nomatch", base, fmt))
@@ -376,6 +389,21 @@ def describe(tr, r, info):
     return key, what
 
 
+def _nframes(path, fmt):
+    from iodata import api
+    try:
+        with warnings.catch_warnings():
+            warnings.simplefilter("ignore")
+            n = 0
+            for _ in api.load_many(path, fmt=fmt):
+                n += 1
+                if n > 1:
+                    break
+            return n
+    except Exception:  # noqa: BLE001
+        return 0
+
+
 def check(run: Run):
     rng = random.Random(run.seed)
     run.cov["rule"] = (
@@ -396,9 +424,17 @@ def check(run: Run):
         lst.sort()
         take = lst if run.thorough() else lst[:2]
         for size, p, sel in take:
-            if not run.thorough() and size > 60000:
+            if not run.thorough() and size > 100000:
                 continue
             chosen.append((p, fmt, sel))
+        if not run.thorough() and hasattr(FORMAT_MODULES[fmt], "load_many"):
+            # ... and the smallest file of the format that really holds several frames (the two smallest ones seldom do)
+            for size, p, sel in lst[2:]:
+                if size > 120000:
+                    break
+                if _nframes(p, fmt) > 1:
+                    chosen.append((p, fmt, sel))
+                    break
     foreign_pool = [open(p, "rb").read() for p, f, s in files if os.path.getsize(p) < 5000][:40]
     args = []
     for i, (p, fmt, sel) in enumerate(chosen):
